@@ -289,7 +289,7 @@ func (t *tr) expr(e ast.Expr) string {
 							plain = false
 							break
 						}
-						args = append(args, ai.Name)
+						args = append(args, fmt.Sprintf("#%d", t.st.id(ai.Name)))
 					}
 					if plain {
 						return fmt.Sprintf("(.var %d)", t.st.id(id.Name+"("+strings.Join(args, ",")+")"))
@@ -798,35 +798,9 @@ func numberLoopFn(fd *ast.FuncDecl, loop *ast.ForStmt, st *symtab) (loopVar int,
 	return
 }
 
-// a function of the shape  prelude; for …{ body }; after  → three blocks sharing one symbol table
-func (e *emitter) loopFn(u *unit, name, leanName string, wantPre bool) {
-	fd := u.fn(name)
-	if fd == nil {
-		fmt.Fprintf(&e.w, "def %s.body : List GoSem.Stmt := [.unknown 0]\ndef %s.after : List GoSem.Stmt := [.unknown 0]\n\n", leanName, leanName)
-		return
-	}
-	st := newSymtab()
-	paramSyms(fd, st, u)
-	loop, at, list := firstFor(fd)
-	loopVar, carried, carriedNames := numberLoopFn(fd, loop, st)
-	t := &tr{u, st}
-	if loop == nil {
-		fmt.Fprintf(&e.w, "def %s.body : List GoSem.Stmt := [.unknown 0]\ndef %s.after : List GoSem.Stmt := [.unknown 0]\n\n", leanName, leanName)
-		return
-	}
-	{
-		var cs []string
-		for _, c := range carried {
-			cs = append(cs, strconv.Itoa(c))
-		}
-		fmt.Fprintf(&e.w, "def %s.loopVar : Int := %d\ndef %s.carried : List Nat := [%s]\n", leanName, loopVar, leanName, strings.Join(cs, ", "))
-		// constant initial value of the first carried variable (the register), if it has one
-		if len(carriedNames) > 0 {
-			v, ok := u.localConst(fd, carriedNames[0])
-			e.optConst(leanName+".regInit", v, ok, "Int")
-		}
-	}
-	// the loop header as text (compared literally by the obligations; its meaning is `GoSem.forLoop`)
+// headerText renders parts of a loop header with identifiers replaced by their numbers
+// (`sz` declared as `len(x)` is replaced by `len(#x)`).
+func headerText(fd *ast.FuncDecl, st *symtab) func(n ast.Node) string {
 	lenAlias := map[string]string{} // `sz := len(bytes)` ↦ sz is len(#0)
 	ast.Inspect(fd.Body, func(n ast.Node) bool {
 		if as, ok := n.(*ast.AssignStmt); ok && as.Tok == token.DEFINE && len(as.Lhs) == 1 && len(as.Rhs) == 1 && isLenCall(as.Rhs[0]) {
@@ -859,6 +833,39 @@ func (e *emitter) loopFn(u *unit, name, leanName string, wantPre bool) {
 		printer.Fprint(&b, fset, n)
 		return subst(b.String(), 0)
 	}
+
+	return hdr
+}
+
+// a function of the shape  prelude; for …{ body }; after  → three blocks sharing one symbol table
+func (e *emitter) loopFn(u *unit, name, leanName string, wantPre bool) {
+	fd := u.fn(name)
+	if fd == nil {
+		fmt.Fprintf(&e.w, "def %s.body : List GoSem.Stmt := [.unknown 0]\ndef %s.after : List GoSem.Stmt := [.unknown 0]\n\n", leanName, leanName)
+		return
+	}
+	st := newSymtab()
+	paramSyms(fd, st, u)
+	loop, at, list := firstFor(fd)
+	loopVar, carried, carriedNames := numberLoopFn(fd, loop, st)
+	t := &tr{u, st}
+	if loop == nil {
+		fmt.Fprintf(&e.w, "def %s.body : List GoSem.Stmt := [.unknown 0]\ndef %s.after : List GoSem.Stmt := [.unknown 0]\n\n", leanName, leanName)
+		return
+	}
+	{
+		var cs []string
+		for _, c := range carried {
+			cs = append(cs, strconv.Itoa(c))
+		}
+		fmt.Fprintf(&e.w, "def %s.loopVar : Int := %d\ndef %s.carried : List Nat := [%s]\n", leanName, loopVar, leanName, strings.Join(cs, ", "))
+		// constant initial value of the first carried variable (the register), if it has one
+		if len(carriedNames) > 0 {
+			v, ok := u.localConst(fd, carriedNames[0])
+			e.optConst(leanName+".regInit", v, ok, "Int")
+		}
+	}
+	hdr := headerText(fd, st)
 
 	_ = wantPre
 	fmt.Fprintf(&e.w, "def %s.pre : List GoSem.Stmt := %s\n", leanName, block(t.stmts(list[:at], "", nil)))
@@ -1605,6 +1612,10 @@ func (e *emitter) toLong(u *unit) {
 	}
 	fmt.Fprintf(&e.w, "def %s.body : List GoSem.Stmt := %s\n", name, block(t.stmts(loop.Body.List, "", skipDigit)))
 	fmt.Fprintf(&e.w, "def %s.after : List GoSem.Stmt := %s\n", name, block(t.stmts(list[at+1:], "", nil)))
+	{
+		hdr := headerText(fd, st)
+		fmt.Fprintf(&e.w, "def %s.header : List String := [%s, %s, %s]\n", name, leanStr(hdr(loop.Init)), leanStr(hdr(loop.Cond)), leanStr(hdr(loop.Post)))
+	}
 	e.syms(name, st)
 	// the closure
 	if findc != nil && findc.Type.Results != nil && len(findc.Type.Params.List) == 1 {
